@@ -606,7 +606,7 @@ class Interp(EvalMixin):
                     st.thash = hash((st.thash, e))
                 st.emit(ev("txn_rollback", self.site(st, node), tid=tid, attempted=kinds))
                 return
-        st.emit(ev("txn_commit" if commit else "txn_rollback", self.site(st, node), tid=tid))
+        st.emit(ev("txn_commit" if commit else "txn_rollback", self.site(st, node), tid=tid, owns=self.own_statuses(st) if commit else ()))
 
     def s_For(self, node, st):
         abrupt: list = []
